@@ -1,5 +1,6 @@
 INIT MCInit
 NEXT MCNext
-INVARIANTS SingleCommit ReturnedWasRegistered NotFoundOnlyWithoutSource ChangeLogMatches RegistryIsFold MapReturns
+INVARIANTS EveryReportIsATransition OneRemoveReturnsTheClient SingleCommit ReturnedWasRegistered NotFoundOnlyWithoutSource ChangeLogMatches RegistryIsFold MapReturns
 CONSTANTS
   NCases = 0
+  Precheck = FALSE
